@@ -56,6 +56,10 @@ func c08Case(w *core.Worker, i int) {
 	fail := c08Fails[x%len(c08Fails)]
 	x /= len(c08Fails)
 	stmt := c08Stmts[x%len(c08Stmts)]
+	if size == 200 && (stmt == "update" || stmt == "replace-select" || stmt == "update-multi" || stmt == "delete") && (x+i/7)%3 == 0 {
+		// tables of thousands of rows (not a multiple of any block size): copies of large tables may be made block by block
+		size = []int{8193, 9000, 12289}[(i/3)%3]
+	}
 	combo := fmt.Sprintf("%s/%s/%s/%s/%d", stmt, fail, kname, state, size)
 	r := core.Derive(w.Seed, "c08", round*7919+i%31)
 	k := map[string]int{"first": 1, "second": 2, "middle": size / 2, "last-1": size - 1, "last": size}[kname]
@@ -215,6 +219,9 @@ func c08Case(w *core.Worker, i int) {
 	cpu := 1
 	if size > 100 {
 		cpu = 4
+	}
+	if size > 1000 {
+		w.Count("cases_on_tables_of_thousands_of_rows", 1)
 	}
 	s, err := core.NewSess(core.SessOpts{Dir: dir, CPU: cpu, Quiet: true})
 	if err != nil {
